@@ -2,7 +2,11 @@
 
 package cluster
 
-import "time"
+import (
+	"time"
+
+	"github.com/semafind/semadb/models"
+)
 
 // Verification hooks (only compiled with -tags verif). A test harness may
 // install VerifYield to be called at labelled points of the shard manager
@@ -22,4 +26,20 @@ func verifTimer(shardDir string, t *time.Timer) *time.Timer {
 		return VerifTimer(shardDir, t)
 	}
 	return t
+}
+
+// VerifShardInfo mirrors the unexported shardInfo for the harness.
+type VerifShardInfo struct {
+	Id         string
+	Size       int64
+	PointCount int64
+}
+
+// VerifDistributePoints exposes distributePoints to the verification harness.
+func VerifDistributePoints(shards []VerifShardInfo, points []models.Point, maxShardSize, maxShardPointCount int64, createShardFn func() (string, error)) (map[string][2]int, error) {
+	in := make([]shardInfo, len(shards))
+	for i, s := range shards {
+		in[i] = shardInfo{Id: s.Id, Size: s.Size, PointCount: s.PointCount}
+	}
+	return distributePoints(in, points, maxShardSize, maxShardPointCount, createShardFn)
 }
